@@ -242,6 +242,13 @@ func (ex *exec) assignHeapNames(fc *FuncContract, fn *ssa.Function, c *ssa.CallC
 				cur = pp.Elem()
 			}
 		}
+	case *SCall:
+		if x.Fun == "spare" && len(x.Args) == 1 {
+			bt := ex.specStaticType(fc, fn, c, x.Args[0])
+			if sl, ok := bt.Underlying().(*types.Slice); ok && bt != nil {
+				return []string{vc.elemHeap(sl.Elem()).name}, nil
+			}
+		}
 	case *SIndex:
 		bt := ex.specStaticType(fc, fn, c, x.X)
 		if bt == nil {
@@ -313,12 +320,14 @@ func (ex *exec) call(st *State, x *ssa.Call) {
 	pre := st.clone()
 	env := mkEnv(pre, pre)
 	for i, cl := range fc.Requires {
-		t, err := env.formula(cl.E)
+		parts, err := env.splitGoal(cl.E, clauseName(cl, i))
 		if err != nil {
 			ex.bail("call %s requires (line %d): %v", key, cl.Line, err)
 		}
-		vc.oblige(fmt.Sprintf("call[%s].pre[%s]", short, clauseName(cl, i)), "pre", ex.cur, t, cl.Text, pos)
-		vc.assume(ex.cur, t)
+		for _, p := range parts {
+			vc.oblige(fmt.Sprintf("call[%s].pre[%s]", short, p.name), "pre", ex.cur, p.t, cl.Text, pos)
+			vc.assume(ex.cur, p.t)
+		}
 	}
 	// effects
 	if !fc.Pure {
@@ -349,13 +358,15 @@ func (ex *exec) call(st *State, x *ssa.Call) {
 	ex.applyGhostExits(post, fc, st, ex.cur)
 	post = mkEnv(st, pre)
 	post.results = results
-	for _, cl := range fc.Ensures {
-		t, err := post.formula(cl.E)
+	for i, cl := range fc.Ensures {
+		parts, err := post.splitGoal(cl.E, clauseName(cl, i))
 		if err != nil {
 			ex.bail("call %s ensures (line %d): %v", key, cl.Line, err)
 		}
 		vc.comment("assume post of " + key + ": " + cl.Text)
-		vc.assume(ex.cur, t)
+		for _, p := range parts {
+			vc.assume(ex.cur, p.t)
+		}
 	}
 	ex.bindResults(x, results)
 }
@@ -397,6 +408,27 @@ func (ex *exec) havocAssign(st, pre *State, env *SpecEnv, a AssignLoc) error {
 		}
 		vc.heapSet(st, hi, "(store "+vc.heapGet(st, hi)+" "+ref+" "+n+")")
 		return nil
+	case *SCall:
+		if x.Fun != "spare" || len(x.Args) != 1 {
+			return fmt.Errorf("unsupported assigns location")
+		}
+		base, err := env.term(x.Args[0])
+		if err != nil {
+			return err
+		}
+		if base.S != SSlice {
+			return fmt.Errorf("spare() of non-slice")
+		}
+		sl := base.Typ.Underlying().(*types.Slice)
+		hi := vc.elemHeap(sl.Elem())
+		h := vc.heapGet(st, hi)
+		arr := vc.freshConst("hv_spare", "(Array Int "+hi.valSort+")")
+		inv := vc.sorts.typeInv(sl.Elem(), "(select "+arr+" i!)", st.nextRef)
+		old := "(select " + h + " (sarr " + base.T + "))"
+		vc.addLine(fmt.Sprintf("(assert (forall ((i! Int)) (! (and %s (=> (not (and (<= (+ (soff %s) (slen %s)) i!) (< i! (+ (soff %s) (scap %s))))) (= (select %s i!) (select %s i!)))) :pattern ((select %s i!)))))",
+			inv, base.T, base.T, base.T, base.T, arr, old, arr))
+		vc.heapSet(st, hi, "(store "+h+" (sarr "+base.T+") "+arr+")")
+		return nil
 	case *SIndex:
 		base, err := env.term(x.X)
 		if err != nil {
@@ -413,7 +445,7 @@ func (ex *exec) havocAssign(st, pre *State, env *SpecEnv, a AssignLoc) error {
 			arr := vc.freshConst("hv_elems", "(Array Int "+hi.valSort+")")
 			inv := vc.sorts.typeInv(sl.Elem(), "(select "+arr+" i!)", st.nextRef)
 			old := "(select " + h + " (sarr " + base.T + "))"
-			vc.lines = append(vc.lines, fmt.Sprintf("(assert (forall ((i! Int)) (! (and %s (=> (not (and (<= (soff %s) i!) (< i! (+ (soff %s) (slen %s))))) (= (select %s i!) (select %s i!)))) :pattern ((select %s i!)))))",
+			vc.addLine(fmt.Sprintf("(assert (forall ((i! Int)) (! (and %s (=> (not (and (<= (soff %s) i!) (< i! (+ (soff %s) (slen %s))))) (= (select %s i!) (select %s i!)))) :pattern ((select %s i!)))))",
 				inv, base.T, base.T, base.T, arr, old, arr))
 			vc.heapSet(st, hi, "(store "+h+" (sarr "+base.T+") "+arr+")")
 			return nil
@@ -605,22 +637,23 @@ func (ex *exec) appendCall(st *State, x *ssa.Call) {
 	h := vc.heapGet(st, hi)
 	n := vc.define("app_n", "Int", "(slen "+s.T+")")
 	m := vc.define("app_m", "Int", "(slen "+e.T+")")
-	inplace := "(<= (+ " + n + " " + m + ") (scap " + s.T + "))"
-	// in-place array: cells [off+n, off+n+m) take the appended elements
+	inpl := vc.fresh("app_inplace")
+	vc.declared[inpl] = true
+	vc.addLine(fmt.Sprintf("(define-fun %s () Bool (<= (+ %s %s) (scap %s)))", inpl, n, m, s.T))
 	oldArr := "(select " + h + " (sarr " + s.T + "))"
-	arrIn := vc.freshConst("app_in", "(Array Int "+hi.valSort+")")
 	base := vc.define("app_b", "Int", "(+ (soff "+s.T+") "+n+")")
-	vc.lines = append(vc.lines, fmt.Sprintf("(assert (forall ((i! Int)) (! (= (select %s i!) (ite (and (<= %s i!) (< i! (+ %s %s))) %s (select %s i!))) :pattern ((select %s i!)))))",
-		arrIn, base, base, m, elemAt("(- i! "+base+")"), oldArr, arrIn))
-	// fresh array: [0,n) copy of s, [n,n+m) appended elements, zero elsewhere
 	fresh := vc.allocRef(st)
-	arrNew := vc.freshConst("app_new", "(Array Int "+hi.valSort+")")
-	vc.lines = append(vc.lines, fmt.Sprintf("(assert (forall ((i! Int)) (! (= (select %s i!) (ite (and (<= 0 i!) (< i! %s)) (select %s (+ (soff %s) i!)) (ite (and (<= %s i!) (< i! (+ %s %s))) %s %s))) :pattern ((select %s i!)))))",
-		arrNew, n, oldArr, s.T, n, n, m, elemAt("(- i! "+n+")"), vc.sorts.zero(sl.Elem()), arrNew))
+	// one result array: in place → old cells with [off+n, off+n+m) overwritten; otherwise a fresh array holding
+	// the old elements at [0,n), the appended ones at [n,n+m) and zero values elsewhere
+	arr := vc.freshConst("app_arr", "(Array Int "+hi.valSort+")")
+	vc.addLine(fmt.Sprintf("(assert (forall ((i! Int)) (! (= (select %s i!) (ite %s (ite (and (<= %s i!) (< i! (+ %s %s))) %s (select %s i!)) (ite (and (<= 0 i!) (< i! %s)) (select %s (+ (soff %s) i!)) (ite (and (<= %s i!) (< i! (+ %s %s))) %s %s)))) :pattern ((select %s i!)))))",
+		arr, inpl, base, base, m, elemAt("(- i! "+base+")"), oldArr, n, oldArr, s.T, n, n, m, elemAt("(- i! "+n+")"), vc.sorts.zero(sl.Elem()), arr))
 	newcap := vc.freshConst("app_cap", "Int")
-	vc.assume(ex.cur, "(>= "+newcap+" (+ "+n+" "+m+"))")
-	vc.heapSet(st, hi, sIte(inplace, "(store "+h+" (sarr "+s.T+") "+arrIn+")", "(store "+h+" "+fresh+" "+arrNew+")"))
-	ex.setVal(x, sIte(inplace, "(mkSlice (sarr "+s.T+") (soff "+s.T+") (+ "+n+" "+m+") (scap "+s.T+"))", "(mkSlice "+fresh+" 0 (+ "+n+" "+m+") "+newcap+")"))
+	vc.assume(ex.cur, "(and (>= "+newcap+" (+ "+n+" "+m+")) (<= "+newcap+" 9223372036854775807))")
+	vc.assume(ex.cur, "(<= (+ "+n+" "+m+") 9223372036854775807)")
+	tgt := vc.define("app_tgt", "Int", sIte(inpl, "(sarr "+s.T+")", fresh))
+	vc.heapSet(st, hi, "(store "+h+" "+tgt+" "+arr+")")
+	ex.setVal(x, "(mkSlice "+tgt+" "+sIte(inpl, "(soff "+s.T+")", "0")+" (+ "+n+" "+m+") "+sIte(inpl, "(scap "+s.T+")", newcap)+")")
 }
 
 func (ex *exec) copyCall(st *State, x *ssa.Call) {
@@ -636,7 +669,7 @@ func (ex *exec) copyCall(st *State, x *ssa.Call) {
 	h := vc.heapGet(st, hi)
 	n := vc.define("copy_n", "Int", sIte("(<= (slen "+d.T+") (slen "+s.T+"))", "(slen "+d.T+")", "(slen "+s.T+")"))
 	arr := vc.freshConst("copy_arr", "(Array Int "+hi.valSort+")")
-	vc.lines = append(vc.lines, fmt.Sprintf("(assert (forall ((i! Int)) (! (= (select %s i!) (ite (and (<= (soff %s) i!) (< i! (+ (soff %s) %s))) (select (select %s (sarr %s)) (+ (soff %s) (- i! (soff %s)))) (select (select %s (sarr %s)) i!))) :pattern ((select %s i!)))))",
+	vc.addLine(fmt.Sprintf("(assert (forall ((i! Int)) (! (= (select %s i!) (ite (and (<= (soff %s) i!) (< i! (+ (soff %s) %s))) (select (select %s (sarr %s)) (+ (soff %s) (- i! (soff %s)))) (select (select %s (sarr %s)) i!))) :pattern ((select %s i!)))))",
 		arr, d.T, d.T, n, h, s.T, s.T, d.T, h, d.T, arr))
 	vc.heapSet(st, hi, "(store "+h+" (sarr "+d.T+") "+arr+")")
 	ex.setVal(x, n)
@@ -646,42 +679,61 @@ func (ex *exec) copyCall(st *State, x *ssa.Call) {
 // Frame check at return: everything allocated at entry and not listed in assigns is unchanged.
 
 func (ex *exec) frameCheck(st *State, fc *FuncContract, pos string) {
+	ex.frameCheckAgainst(st, ex.vc.entry, ex.vc.entry, fc.Assigns, ex.cur, "frame", pos, nil)
+}
+
+// frameCheckAgainst: every heap cell allocated in base and not covered by assigns (evaluated in evalSt)
+// has the same value in st as in base.
+func (ex *exec) frameCheckAgainst(st, base, evalSt *State, assigns []AssignLoc, cond, prefix, pos string, li *loopInfo) {
 	vc := ex.vc
-	entry := vc.entry
-	env := ex.newEnv(entry, entry) // assigns locations are evaluated in the entry state
-	type allowF struct{ ref string }
-	allowedField := map[string][]string{}    // heap name → refs
-	allowedElemAll := map[string][]string{}  // heap name → "(arr,off,len)" triples as condition builders
+	env := ex.newEnv(evalSt, vc.entry) // assigns locations are evaluated in evalSt
+	env.loop = li
+	allowedField := map[string][]string{}
+	allowedElemAll := map[string][]string{}
 	allowedElemOne := map[string][][2]string{}
-	for _, a := range fc.Assigns {
+	allowedSpare := map[string][]string{}
+	for _, a := range assigns {
 		switch x := a.E.(type) {
 		case *SSelect:
-			base, err := env.term(x.X)
+			b, err := env.term(x.X)
 			if err != nil {
 				ex.bail("assigns %s: %v", a.Text, err)
 			}
-			hi, ref, err := ex.fieldCell(env, base, x.Sel)
+			hi, ref, err := ex.fieldCell(env, b, x.Sel)
 			if err != nil {
 				ex.bail("assigns %s: %v", a.Text, err)
 			}
 			allowedField[hi.name] = append(allowedField[hi.name], ref)
-		case *SIndex:
-			base, err := env.term(x.X)
+		case *SCall:
+			if x.Fun != "spare" || len(x.Args) != 1 {
+				ex.bail("assigns %s: unsupported location", a.Text)
+			}
+			b, err := env.term(x.Args[0])
 			if err != nil {
 				ex.bail("assigns %s: %v", a.Text, err)
 			}
-			if base.S != SSlice {
+			if b.S != SSlice {
 				ex.bail("assigns %s: not a slice", a.Text)
 			}
-			hi := vc.elemHeap(base.Typ.Underlying().(*types.Slice).Elem())
+			hi := vc.elemHeap(b.Typ.Underlying().(*types.Slice).Elem())
+			allowedSpare[hi.name] = append(allowedSpare[hi.name], b.T)
+		case *SIndex:
+			b, err := env.term(x.X)
+			if err != nil {
+				ex.bail("assigns %s: %v", a.Text, err)
+			}
+			if b.S != SSlice {
+				ex.bail("assigns %s: not a slice", a.Text)
+			}
+			hi := vc.elemHeap(b.Typ.Underlying().(*types.Slice).Elem())
 			if x.I == nil {
-				allowedElemAll[hi.name] = append(allowedElemAll[hi.name], base.T)
+				allowedElemAll[hi.name] = append(allowedElemAll[hi.name], b.T)
 			} else {
 				idx, err := env.term(x.I)
 				if err != nil {
 					ex.bail("assigns %s: %v", a.Text, err)
 				}
-				allowedElemOne[hi.name] = append(allowedElemOne[hi.name], [2]string{base.T, idx.T})
+				allowedElemOne[hi.name] = append(allowedElemOne[hi.name], [2]string{b.T, idx.T})
 			}
 		default:
 			ex.bail("assigns %s: unsupported location", a.Text)
@@ -691,15 +743,18 @@ func (ex *exec) frameCheck(st *State, fc *FuncContract, pos string) {
 	for k := range st.heap {
 		names[k] = true
 	}
-	if st.epoch != entry.epoch {
-		// some call havocked everything: the frame cannot be established
-		vc.oblige("frame[all]", "frame", ex.cur, "false", "a callee without assigns clause havocs the whole heap", pos)
+	if st.epoch != base.epoch {
+		vc.oblige(prefix+"[all]", "frame", cond, "false", "a callee without assigns clause havocs the whole heap", pos)
 		return
+	}
+	bound := base.nextRef
+	if li != nil {
+		bound = evalSt.nextRef // objects allocated since the loop was entered are not framed
 	}
 	for _, name := range sortedKeys(names) {
 		hi := vc.heaps[name]
 		cur := st.heap[name]
-		old := vc.heapGet(entry, hi)
+		old := vc.heapGet(base, hi)
 		if cur == old {
 			continue
 		}
@@ -715,11 +770,14 @@ func (ex *exec) frameCheck(st *State, fc *FuncContract, pos string) {
 			for _, r := range allowedField[name] {
 				ex2 = append(ex2, "(= r! "+r+")")
 			}
-			goal = "(forall ((r! Int)) (=> (and (< r! nextRef0) (not " + sOr(ex2...) + ")) (= (select " + cur + " r!) (select " + old + " r!))))"
+			goal = "(forall ((r! Int)) (=> (and (< r! " + bound + ") (not " + sOr(ex2...) + ")) (= (select " + cur + " r!) (select " + old + " r!))))"
 		case 2:
 			var ex2 []string
 			for _, s := range allowedElemAll[name] {
 				ex2 = append(ex2, "(and (= r! (sarr "+s+")) (<= (soff "+s+") i!) (< i! (+ (soff "+s+") (slen "+s+"))))")
+			}
+			for _, s := range allowedSpare[name] {
+				ex2 = append(ex2, "(and (= r! (sarr "+s+")) (>= i! (+ (soff "+s+") (slen "+s+"))) (< i! (+ (soff "+s+") (scap "+s+"))))")
 			}
 			for _, p := range allowedElemOne[name] {
 				ex2 = append(ex2, "(and (= r! (sarr "+p[0]+")) (= i! (+ (soff "+p[0]+") "+p[1]+")))")
@@ -728,8 +786,8 @@ func (ex *exec) frameCheck(st *State, fc *FuncContract, pos string) {
 			if ks == "" {
 				ks = "Int"
 			}
-			goal = "(forall ((r! Int) (i! " + ks + ")) (=> (and (< r! nextRef0) (not " + sOr(ex2...) + ")) (= (select (select " + cur + " r!) i!) (select (select " + old + " r!) i!))))"
+			goal = "(forall ((r! Int) (i! " + ks + ")) (=> (and (< r! " + bound + ") (not " + sOr(ex2...) + ")) (= (select (select " + cur + " r!) i!) (select (select " + old + " r!) i!))))"
 		}
-		vc.oblige("frame["+strings.TrimPrefix(name, "H")+"]", "frame", ex.cur, goal, "only locations listed in assigns change (heap map "+name+")", pos)
+		vc.oblige(prefix+"["+strings.TrimPrefix(name, "H")+"]", "frame", cond, goal, "only locations listed in assigns/modifies change (heap map "+name+")", pos)
 	}
 }
